@@ -21,6 +21,7 @@ Inductive lev :=
 | LStore (tid : nat) (k v : N)                       (* SetWithCap's / Set's own section *)
 | LPia (tid : nat) (k v : N) (ins : bool)
 | LDel (tid : nat) (k : N) (r : bool)
+| LRem (tid : nat) (k : N)                            (* Cache.Remove: Del with the result dropped *)
 | LCas (tid : nat) (k old v : N) (hit : bool)
 | LCad (tid : nat) (k old : N) (hit : bool)
 | LEvict (tid : nat) (own : N) (ks : list N)         (* toll of the insert of [own]: the keys it took *)
@@ -38,7 +39,7 @@ Definition lev_apply (e : lev) (k : N) (cur : option N) : option N :=
   match e with
   | LStore _ k' v => if N.eqb k k' then Some v else cur
   | LPia _ k' v ins => if N.eqb k k' && ins then Some v else cur
-  | LDel _ k' _ => if N.eqb k k' then None else cur
+  | LDel _ k' _ | LRem _ k' => if N.eqb k k' then None else cur
   | LCas _ k' _ v hit => if N.eqb k k' && hit then Some v else cur
   | LCad _ k' _ hit => if N.eqb k k' && hit then None else cur
   | LEvict _ _ ks | LClear _ ks => if lmem k ks then None else cur
@@ -47,7 +48,7 @@ Definition lev_apply (e : lev) (k : N) (cur : option N) : option N :=
 (* the recorded result is the one a finite map gives *)
 Definition lev_legal (val : N -> option N) (e : lev) : bool :=
   match e with
-  | LStore _ _ _ => true
+  | LStore _ _ _ | LRem _ _ => true
   | LPia _ k _ ins => Bool.eqb ins (negb (is_some (val k)))
   | LDel _ k r => Bool.eqb r (is_some (val k))
   | LCas _ k old _ hit => Bool.eqb hit (oeqb (val k) (Some old))
